@@ -149,7 +149,12 @@ func genLines(r interface{ IntN(int) int }, n int, includes []string, damage boo
 			case 8:
 				out = append(out, "@ 300 IN A 192.0.2.1 ) stray")
 			case 9:
-				out = append(out, "$GENERATE 5-1 bad$ A 10.0.0.$")
+				if r.IntN(2) == 0 {
+					out = append(out, "$GENERATE 5-1 bad$ A 10.0.0.$")
+				} else {
+					// a closing parenthesis that closes nothing, after the RDATA of any record type
+					out = append(out, strings.TrimRight(records[r.IntN(len(records))], " ")+" )")
+				}
 			}
 		}
 	}
@@ -648,6 +653,15 @@ func runZone(sc *Scenario, res *core.Result, logf func(string, ...any)) {
 			return
 		}
 	}
+	// P3: a closing parenthesis that closes nothing is a syntax error wherever
+	// it stands; it must be reported, whatever record type it follows
+	if i := strayParen(sc.Files[0].Lines); i >= 0 {
+		res.Bump("oracle.P3_stray_paren_reported")
+		if ref.err == "" {
+			res.Fail("P3", "stray-paren-not-reported", "line %d of %s has a closing parenthesis that closes nothing (%q); the parser returned %d records and no error", i+1, sc.Files[0].Name, sc.Files[0].Lines[i], len(ref.recs))
+			return
+		}
+	}
 	if sc.Planted != nil {
 		res.Bump("oracle.P8_error_position")
 		want := fmt.Sprintf("line: %d:", sc.Planted.Line)
@@ -816,6 +830,35 @@ func directiveInterrupted(sc *Scenario) bool {
 		}
 	}
 	return false
+}
+
+// strayParen returns the index of the first line that holds an unmatched ")"
+// in plain view (no quotes, escapes or comments on the line, everything before
+// it balanced, the line is a record and not a directive), or -1.
+func strayParen(lines []string) int {
+	for i, l := range lines {
+		if !balanced(lines[:i]) {
+			return -1
+		}
+		if strings.ContainsAny(l, "\"\\;$\x00") {
+			continue
+		}
+		if strings.Count(l, ")") > strings.Count(l, "(") && len(strings.Fields(l)) >= 3 {
+			// make sure the first unmatched one is reached before any "("
+			depth := 0
+			for _, c := range l {
+				if c == '(' {
+					depth++
+				} else if c == ')' {
+					depth--
+					if depth < 0 {
+						return i
+					}
+				}
+			}
+		}
+	}
+	return -1
 }
 
 // balanced reports whether the lines leave no quote, parenthesis or escape
